@@ -49,8 +49,9 @@ def generators():
     import gen_registry
     import gen_persist
     import gen_mro
+    import gen_skel
     gens = {'Framing': gen_framing.generate, 'Registry': gen_registry.generate, 'Persist': gen_persist.generate,
-            'MroScan': gen_mro.generate}
+            'MroScan': gen_mro.generate, 'Skel': gen_skel.generate}
     try:
         import gen_units
         gens.update(gen_units.GENERATORS)
